@@ -303,6 +303,7 @@ Inductive slot_ev :=
 | SWrite      (* :36-41: PINGREQ handed to the transport; from here on the peer may answer *)
 | SSelect     (* :42: the Ping starts waiting; a buffered PINGRESP is taken at once *)
 | SResp       (* the reader receives a PINGRESP *)
+| SOther      (* the reader receives and handles any other packet (PUBLISH, PUBREL, an ack, ...) *)
 | SGiveUp.    (* the waiting Ping's context is done *)
 
 Inductive slot_res := SAnswered | SGaveUp.
@@ -330,6 +331,7 @@ Definition slot_step (st : slot_st) (e : slot_ev) : slot_st * list slot_res :=
           if sl_wait st then (mk_slot (Some false) false, [SAnswered])   (* taken by the waiting Ping *)
           else (mk_slot (Some true) false, [])             (* buffered in the channel installed last *)
       end
+  | SOther => (st, [])                                     (* serve.go:66-176: not the ping waiter's business *)
   | SGiveUp => if sl_wait st then (mk_slot (sl_chan st) false, [SGaveUp]) else (st, [])
   end.
 
@@ -356,3 +358,31 @@ Definition outcome_of_slot (r : slot_res) : ping_outcome :=
 
 Definition wire_outcomes (uzrs : list (nat * nat * nat)) : list ping_outcome :=
   map outcome_of_slot (slot_run slot_init (flat_map ping_events uzrs)).
+
+(* the same with a peer that talks: [o] other packets (PUBLISH, PUBREL, stray acks) handled by the
+   reader after the PINGREQ was written and again while the Ping waits *)
+Definition ping_events_talk (x : nat * nat * nat * nat) : list slot_ev :=
+  let '(u, z, r, o) := x in
+  repeat SResp u ++ SInstall :: SWrite :: repeat SOther o ++ repeat SResp z ++ SSelect :: repeat SOther o ++
+  (match (z + r)%nat with O => [SGiveUp] | _ => repeat SResp r end).
+
+Definition wire_outcomes_talk (xs : list (nat * nat * nat * nat)) : list ping_outcome :=
+  map outcome_of_slot (slot_run slot_init (flat_map ping_events_talk xs)).
+
+Definition is_other (e : slot_ev) : bool := match e with SOther => true | _ => false end.
+
+(* Which deadline a keep-alive ping of the reconnecting client runs under.  KeepAlive is given
+   baseCli (reconnclient.go:125), and BaseClient.Ping knows only the context it is handed (ctxTo:
+   the Timeout).  RetryClient.Ping would add RetryClient.ResponseTimeout (retryclient.go:257-264,
+   381-387; 0 = none), the deadline meant for PUBACK/SUBACK. *)
+Inductive pinger := PingBaseClient | PingRetryClient.
+Definition rc_pinger : pinger := PingBaseClient.                            (* reconnclient.go:125 *)
+Definition ping_deadline (who : pinger) (T response_timeout : N) : N :=
+  match who with
+  | PingBaseClient => T
+  | PingRetryClient => if response_timeout =? 0 then T else N.min response_timeout T
+  end.
+
+Definition rc_keepalive_cfg (o : rc_options) (response_timeout : N) (delays : list (option N)) : option ka_out :=
+  rc_keepalive (ro_ping_interval o) (ro_timeout o)
+               (map (peer_outcome (ping_deadline rc_pinger (ro_timeout o) response_timeout)) delays).
